@@ -41,21 +41,21 @@ def gen_layout_guards(g):
     for k, n in enumerate(raw):
         p = parents.get(id(n))
         ok = isinstance(p, ast.Call) and ast.unparse(p.func) == "processing.keep_syntax_tree" and len(p.args) == 2 and p.args[1] is n
-        g.oblige("dataflow", f"format_code:{ast.unparse(n.func)}#{k}-goes-through-the-tree-guard", [], z3.BoolVal(bool(ok)), fc.lineno)
+        g.oblige_text("dataflow", f"format_code:{ast.unparse(n.func)}#{k}-goes-through-the-tree-guard", bool(ok), fc.lineno)
     fb, _ = find_def("fixes", "fix_too_many_blank_lines")
     subs = [n for n in ast.walk(fb) if isinstance(n, ast.Call) and ast.unparse(n.func) == "re.sub"]
     pb = {}
     for p in ast.walk(fb):
         for c in ast.iter_child_nodes(p):
             pb[id(c)] = p
-    g.oblige("table", "fix_too_many_blank_lines:has-substitutions", [], z3.BoolVal(len(subs) >= 1), fb.lineno)
+    g.oblige_text("table", "fix_too_many_blank_lines:has-substitutions", len(subs) >= 1, fb.lineno)
     for k, n in enumerate(subs):
         p = pb.get(id(n))
         ok = isinstance(p, ast.Call) and ast.unparse(p.func) == "processing.keep_syntax_tree" and len(p.args) == 2 and p.args[1] is n and ast.unparse(p.args[0]) == ast.unparse(n.args[2])
-        g.oblige("dataflow", f"fix_too_many_blank_lines:substitution#{k}-goes-through-the-tree-guard", [], z3.BoolVal(bool(ok)), fb.lineno)
+        g.oblige_text("dataflow", f"fix_too_many_blank_lines:substitution#{k}-goes-through-the-tree-guard", bool(ok), fb.lineno)
     fl, _ = find_def("fixes", "fix_line_lengths")
     ys = [n for n in ast.walk(fl) if isinstance(n, ast.Yield)]
     # the yield is dominated by a `continue` taken when the whole-text candidate does not keep the tree
     guards = [n for n in ast.walk(fl) if isinstance(n, ast.If) and "processing.keep_syntax_tree(source, candidate)" in ast.unparse(n.test) and isinstance(n.body[0], ast.Continue)]
     ok = len(ys) == 1 and len(guards) == 1 and guards[0].lineno < ys[0].lineno
-    g.oblige("dataflow", "fix_line_lengths:a-wrapped-statement-is-yielded-only-if-the-tree-is-kept", [], z3.BoolVal(bool(ok)), fl.lineno)
+    g.oblige_text("dataflow", "fix_line_lengths:a-wrapped-statement-is-yielded-only-if-the-tree-is-kept", bool(ok), fl.lineno)
